@@ -15,6 +15,11 @@
 (***************************************************************************)
 EXTENDS Integers, Sequences, FiniteSets
 
+\* what the user state machine of the driver returns for an applied command: the empty result
+\* (value 0, no data) for every third key - a retried proposal whose first result was empty must
+\* still be answered from the session history, not applied again
+UserResult(c, e) == IF e.key % 3 = 2 THEN 0 ELSE c * 1000 + e.val
+
 Has(m, k) == \E p \in m : p[1] = k
 Get(m, k) == (CHOOSE p \in m : p[1] = k)[2]
 Put(m, k, v) == {p \in m : p[1] # k} \cup {<<k, v>>}
@@ -105,7 +110,7 @@ ApplyEntry(r, e, lru, ordered) ==
     [] e.kind = "prop" ->
          IF e.series = 0     \* NoOP session: no at-most-once bookkeeping
            THEN LET c == r.cnt + 1 IN
-                [st |-> [r0 EXCEPT !.kv = Put(@, e.key, e.val), !.cnt = c], cb |-> CB(c * 1000 + e.val, FALSE, FALSE)]
+                [st |-> [r0 EXCEPT !.kv = Put(@, e.key, e.val), !.cnt = c], cb |-> CB(UserResult(c, e), FALSE, FALSE)]
            ELSE IF SessPos(r.sess, e.cid) = 0 THEN [st |-> r0, cb |-> CB(0, TRUE, FALSE)]    \* rejected, untouched
            ELSE LET ss1 == Touch(r.sess, e.cid)
                     n == Len(ss1)
@@ -115,7 +120,7 @@ ApplyEntry(r, e, lru, ordered) ==
                    ELSE IF Has(s1.hist, e.series)
                      THEN [st |-> [r0 EXCEPT !.sess = [ss1 EXCEPT ![n] = s1]],
                            cb |-> CB(Get(s1.hist, e.series), FALSE, FALSE)]                     \* retry: cached result
-                   ELSE LET c == r.cnt + 1  res == c * 1000 + e.val IN
+                   ELSE LET c == r.cnt + 1  res == UserResult(c, e) IN
                         [st |-> [r0 EXCEPT !.kv = Put(@, e.key, e.val), !.cnt = c,
                                            !.sess = [ss1 EXCEPT ![n] = [s1 EXCEPT !.hist = Put(@, e.series, res)]]],
                          cb |-> CB(res, FALSE, FALSE)]
